@@ -28,9 +28,13 @@ import (
 type Event struct {
 	Op string  `json:"op"`
 	A  []int64 `json:"a,omitempty"`
+	N  string  `json:"n,omitempty"` // display name only (menu entries); identity is Op+A
 }
 
 func (e Event) String() string {
+	if e.N != "" {
+		return e.N
+	}
 	if len(e.A) == 0 {
 		return e.Op
 	}
